@@ -2,6 +2,7 @@
 import re
 import core, lib
 from core import call_matches, call_names, op_place, op_local, backward_slice
+from props import C02
 
 LEVEL = 'proof'
 FLOOR = 16
@@ -89,3 +90,5 @@ def run(ctx):
             if 'Ge' in binops and (cmpf is None or cmpf in fields or any(re.search(r'Atomic.*::load$', x) for x in calls)):
                 ok = True
         ctx.ob('4a link-range-checked %s' % fn, 'K3-guard', fn, 'a free-list link is compared (>=) with the fill mark and rejected as Corruption before it is followed', ok, 'corruption exits %s' % corr)
+    # in-memory mirrors (free-entry stacks, ref-count cache) are derived from the files only after replay
+    C02.replay_before_service(ctx, '5')
